@@ -12,7 +12,7 @@ import (
 var typeNames = []string{"INTEGER", "TEXT", "", "INT", "REAL", "BLOB", "NUMERIC", "integer", "VARCHAR(10)", "DECIMAL(10,5)", "BIGINT", "Integer", "CHAR", "DOUBLE", "FLOAT", "BOOLEAN", "DATETIME", "CLOB", "DOUBLE PRECISION", "UNSIGNED BIG INT"}
 
 var plainColNames = []string{"a", "b", "c", "d", "e", "f", "g", "h", "k", "v", "w", "x", "y", "z", "name", "val", "id", "n", "t", "data"}
-var oddColNames = []string{"rowid", "oid", "_rowid_", "é", "éa", "ünï", "É", "ÜNÏ", "ſ", "S", "K", "k", "select", "key", "my col", "A", "Col", "index", "x y", "q\"q", "日本", "_", "a1", "desc", "replace", "ROWID", "a`b", "k`1", "br]ck", "q'q", "two  spaces", "ta\tb"}
+var oddColNames = []string{"rowid", "oid", "_rowid_", "é", "éa", "ünï", "É", "ÜNÏ", "ſ", "S", "K", "k", "a\u00a0b", "n\u3000m", "select", "key", "my col", "A", "Col", "index", "x y", "q\"q", "日本", "_", "a1", "desc", "replace", "ROWID", "a`b", "k`1", "br]ck", "q'q", "two  spaces", "ta\tb"}
 
 var collations = []string{"BINARY", "NOCASE", "RTRIM", "nocase", "rtrim", "binary"}
 
@@ -394,6 +394,11 @@ func CreateIndex(s *sim.Src, name, table string, cols []string, fancy int, allow
 				e = q + " || 'x'"
 			default:
 				e = "length(" + q + ")"
+			}
+			if fancy >= 9 && s.Chance(1, 3, "expr-parens") {
+				// (only the schema check builds these: known finding C10:schema:paren-expr-collate)
+				// (expr) COLLATE c: the collation belongs to the whole indexed value
+				e = "(" + e + ")"
 			}
 			spec.Exprs[fmt.Sprint(len(parts))] = e
 			p = e
